@@ -108,6 +108,19 @@ Theorem C01_histories_with_splits_keep_invariant :
   forall c xs s, cfg_ok c -> inv c s -> xrun_ok c s xs -> inv c (fold_left (xstep c) xs s).
 Proof. exact xrun_inv. Qed.
 
+Theorem C01_split_is_last :
+  forall c s ptr size mid,
+  (up c = true -> is_last c s (ptr + mid) (size - mid) = is_last c s ptr size) /\
+  (up c = false -> is_last c s ptr mid = is_last c s ptr size).
+Proof. exact split_is_last. Qed.
+
+Theorem C01_split_other_part_not_last :
+  forall c s ptr size mid ch,
+  cur_chunk s = Some ch -> 0 < mid < size ->
+  (up c = true -> is_last c s ptr mid = true -> is_last c s ptr size = false) /\
+  (up c = false -> is_last c s (ptr + mid) (size - mid) = true -> is_last c s ptr size = false).
+Proof. exact split_other_part_not_last. Qed.
+
 Print Assumptions C01_live_blocks.
 Print Assumptions C01_step_inv_partial.
 Print Assumptions C01_reachable_partial.
@@ -121,3 +134,5 @@ Print Assumptions C01_split_keeps_invariant.
 Print Assumptions C01_split_is_bookkeeping.
 Print Assumptions C01_split_parts.
 Print Assumptions C01_histories_with_splits_keep_invariant.
+Print Assumptions C01_split_is_last.
+Print Assumptions C01_split_other_part_not_last.
